@@ -561,7 +561,9 @@ func (g *progGen) breakType(src string) string {
 		return src + " + \"x\""
 	}
 	sp := spans[g.r.Intn(len(spans))]
-	repl := []string{"\"s\"", "1", "true", "[1]", "[\"a\": 1]", "{a: 1}", "'2020-01-02'", "[]", "[:]", "{}", "undefinedVar", "match"}
+	repl := []string{"\"s\"", "1", "true", "[1]", "[\"a\": 1]", "{a: 1}", "'2020-01-02'", "[]", "[:]", "{}", "undefinedVar", "match",
+		// an optional where the payload type is required (must be rejected at compile time)
+		"mb", "ms", "om.p", "mb", "ms"}
 	return src[:sp[0]] + g.pick(repl) + src[sp[1]:]
 }
 
